@@ -198,7 +198,7 @@ Qed.
 
 Theorem complete doc : spec_valid doc = true -> check_doc doc = [].
 Proof.
-  unfold spec_valid. rewrite !andb_true_iff. intros [[[[[[Hu Hrules] Hau] Hne] _] _] _].
+  unfold spec_valid. rewrite !andb_true_iff. intros [[[[[[[Hu Hrules] Hau] Hne] _] _] _] _].
   apply (complete_gen true); try assumption.
   intros r. rewrite forallb_forall in Hrules. apply (Hrules r). apply all_rules_all.
 Qed.
